@@ -225,7 +225,13 @@ fn envelope_of(op: &Value) -> Result<Envelope, String> {
     for t in op["to"].as_array().unwrap() {
         to.push(s_of(t).parse().map_err(|e| format!("to: {e}"))?);
     }
-    Envelope::new(from, to).map_err(|e| format!("envelope: {e}"))
+    let env = Envelope::new(from, to).map_err(|e| format!("envelope: {e}"))?;
+    if op["via_json"] == true {
+        // the envelope as it comes back from a spool: written with serde and read again (what FileTransport::read hands over)
+        let js = serde_json::to_string(&env).map_err(|e| format!("envelope json: {e}"))?;
+        return serde_json::from_str(&js).map_err(|e| format!("envelope json: {e}"));
+    }
+    Ok(env)
 }
 
 /// the message of a send op: "msg" (hex) or {"unit": hex, "count": n} under "msg_repeat"
@@ -339,7 +345,7 @@ fn run_sync(ops: &[Value], port: u16, timeout: Duration) -> (Vec<Value>, Vec<u64
                 // built from a connection URL ({port} is replaced by the scripted peer's port)
                 let url = op["url"].as_str().unwrap().replace("{port}", &port.to_string());
                 match SmtpTransport::from_url(&url) {
-                    Ok(b) => { tr = Some(b.timeout(Some(timeout)).pool_config(PoolConfig::new().max_size(0)).build()); json!("unit") }
+                    Ok(b) => { tr = Some(b.timeout(if op["no_timeout"] == true { None } else { Some(timeout) }).pool_config(PoolConfig::new().max_size(0)).build()); json!("unit") }
                     Err(e) => json!(format!("urlerr,{e}")),
                 }
             }
@@ -347,7 +353,7 @@ fn run_sync(ops: &[Value], port: u16, timeout: Duration) -> (Vec<Value>, Vec<u64
                 // the documented presets, pointed at the scripted peer: relay (implicit TLS) / starttls_relay (STARTTLS required)
                 let r = if op["preset"] == "relay" { SmtpTransport::relay("127.0.0.1") } else { SmtpTransport::starttls_relay("127.0.0.1") };
                 match r {
-                    Ok(b) => { tr = Some(b.port(port).timeout(Some(timeout)).pool_config(PoolConfig::new().max_size(0)).build()); json!("unit") }
+                    Ok(b) => { tr = Some(b.port(port).timeout(if op["no_timeout"] == true { None } else { Some(timeout) }).pool_config(PoolConfig::new().max_size(0)).build()); json!("unit") }
                     Err(e) => json!(format!("preseterr,{e}")),
                 }
             }
@@ -459,14 +465,14 @@ async fn run_tokio(ops: &[Value], port: u16, timeout: Duration) -> (Vec<Value>, 
             "transport" if op["url"].is_string() => {
                 let url = op["url"].as_str().unwrap().replace("{port}", &port.to_string());
                 match AsyncSmtpTransport::<Tokio1Executor>::from_url(&url) {
-                    Ok(b) => { tr = Some(b.timeout(Some(timeout)).pool_config(PoolConfig::new().max_size(0)).build()); json!("unit") }
+                    Ok(b) => { tr = Some(b.timeout(if op["no_timeout"] == true { None } else { Some(timeout) }).pool_config(PoolConfig::new().max_size(0)).build()); json!("unit") }
                     Err(e) => json!(format!("urlerr,{e}")),
                 }
             }
             "transport" if op["preset"].is_string() => {
                 let r = if op["preset"] == "relay" { AsyncSmtpTransport::<Tokio1Executor>::relay("127.0.0.1") } else { AsyncSmtpTransport::<Tokio1Executor>::starttls_relay("127.0.0.1") };
                 match r {
-                    Ok(b) => { tr = Some(b.port(port).timeout(Some(timeout)).pool_config(PoolConfig::new().max_size(0)).build()); json!("unit") }
+                    Ok(b) => { tr = Some(b.port(port).timeout(if op["no_timeout"] == true { None } else { Some(timeout) }).pool_config(PoolConfig::new().max_size(0)).build()); json!("unit") }
                     Err(e) => json!(format!("preseterr,{e}")),
                 }
             }
